@@ -544,6 +544,28 @@ class Scen(CompScenario):
             reader = EventLogReader(p1)
             self.expect(reader.schema == schema, "stream-mismatch", "EventLogReader schema differs")
             self._same_events("stream-mismatch", "save -> EventLogReader", reader.schema, list(reader), ref)
+            # several iterations over the one reader object, advanced in a seeded interleaving: every one of them
+            # streams the whole log (readers that are consumed by two loops, zip(reader, reader), nested scans)
+            irng = random.Random(self.cfg["perm"] ^ 0x5EED)
+            its = [iter(reader) for _ in range(irng.choice([2, 2, 3]))]
+            outs = [[] for _ in its]
+            live = list(range(len(its)))
+            switches, last = 0, None
+            while live:
+                k = irng.choice(live)
+                for _ in range(irng.choice([1, 1, 2, 5])):
+                    try:
+                        outs[k].append(next(its[k]))
+                    except StopIteration:
+                        live.remove(k)
+                        break
+                switches += int(last is not None and last != k)
+                last = k
+            for k, got in enumerate(outs):
+                self._same_events("stream-mismatch", f"iteration {k} of {len(its)} interleaved iterations over one EventLogReader",
+                                  reader.schema, got, ref)
+            if switches > 1 and len(ref) > 2:
+                self.hit("reader_iterations_interleaved")
 
             # (3) sampler over the recorded site signals: packed trigger vector -> in-memory log,
             #     per-site triggers -> EventLogWriter -> EventLogReader
@@ -670,7 +692,7 @@ class Prop(PropBase):
                     "several_sites_same_cycle", "cycle_without_record", "signed_negative_value",
                     "bool_field_from_wide_value", "method_argument_field", "fired_in_method_body",
                     "fired_in_transaction_body", "fired_by_context_alone", "requested_transaction_not_run",
-                    "nonempty_log", "sampler_packed", "sampler_per_site", "consumer_input_out_of_order",
+                    "nonempty_log", "sampler_packed", "reader_iterations_interleaved", "sampler_per_site", "consumer_input_out_of_order",
                     "top_emit_fired", "top_emit_fires_outside_context", "top_emit_multibit_when", "top_emit_default_when",
                     "fired_in_fsm_state", "fsm_state_blocks", "fired_under_avoided_if", "avoided_if_blocks",
                     "value_wider_than_32_bits", "negative_value_wider_than_32_bits", "design_without_emission_sites",
